@@ -24,4 +24,39 @@ TABLE["C06"] = {
             "ray-tube law (curvature_transfer) is stated in DESIGN and not yet mechanised.",
     "technique": "Coq proof over R (list induction, field/lra) + extracted-OCaml differential correspondence",
 }
+TABLE["C11"] = {
+    "text": "Coq theorems: toneburst length odd, symmetric, peak exactly 1 at the centre / at time zero (make_toneburst2), |.|<=1, "
+            "zero outside and at both ends of the window, wrapped peak at sample 0; Hilbert weights of rfft_to_hilbert equal the "
+            "analytic-signal weights for both parities; shift theorem for the finite Fourier sum (whole-sample delay = circular "
+            "shift; zero delay = identity); the delay split q = nearest sample, |rem| <= dt/2, q*dt+rem = d; a delay on sample k "
+            "adds response sample i at output sample k - t0 + i and nothing else. Tie: extracted model vs make_toneburst/"
+            "make_toneburst2 sample by sample (and accepted/rejected arguments), model weights vs weights recovered from "
+            "rfft_to_hilbert, FFT oracles vs the finite Fourier sum, delay split on exact rationals (NumQ in coqc) vs the slice really "
+            "written; spec predicates on the implementation for every fitting delay k*dt, k*dt +- ulp and random fractional delays.",
+    "note": "Partial: for fractional remainders the half-sample peak criterion is measured, not proved (peak_within_half_sample_partial). "
+            "numpy.fft/scipy.fftpack are oracles for the Fourier sums. Trusted: Coq kernel + Reals axioms, extraction, numf.ml, driver.",
+    "technique": "Coq proof over R/C (trigonometric identities, Flocq rounding lemmas, finite sums) + extracted-OCaml and vm_compute correspondence",
+}
 NOT_APPLICABLE = {}
+TABLE["C15"] = {
+    "text": "Coq theorems (axiom-free, list induction) about an executable model of arim's frame bookkeeping: fmc / hmc list every "
+            "ordered / unordered element pair exactly once (for all n, with their storage order); infer_capture_method is invariant "
+            "under permutation, recognises every permutation of FMC and of HMC in either orientation (n=1 reported as hmc) and nothing "
+            "else (soundness: hmc/fmc answers imply a permutation); default weights are 1 iff the mirrored pair is present, else 2, and "
+            "sum to n^2 on an HMC; expand_frame_assuming_reciprocity never raises and yields exactly the recorded pairs and their "
+            "mirrors, duplicate-free, in increasing tuple order, each row carrying the recorded row of its pair and only otherwise the "
+            "mirrored one, is complete and idempotent; subframe_from_probe_elements keeps exactly the rows with both elements retained, "
+            "in order, with E[new]=old so that sub-probe attributes (locations) of the new indices equal those of the old ones (with and "
+            "without sub-probe, also for repeated elements), never raising on valid input; for every finite chain of subframe / "
+            "subframe_from_probe_elements / expand / apply_filter the invariant 'row label = physical (tx, rx) elements it was recorded "
+            "with' (up to the mirror introduced by expansion; exact without expansion) is preserved and no row is invented. "
+            "Tie: real arim.Frame/Probe objects whose samples and per-element attributes encode physical labels; chains of 1-6 "
+            "operations with slices of every step sign, boolean masks, permuted / negative / repeated / out-of-range integer lists; "
+            "after every step tx, rx, payload and probe labels are compared exactly with the model evaluated by vm_compute in coqc, and "
+            "the spec predicates (brute-force definitions) are evaluated on the implementation's output; fmc, hmc, infer, weights, the "
+            "duplicate check, get_timetrace, is_complete separately.",
+    "note": "Trusted: Coq kernel; harness normalisation of slices/masks to arange(n)[idx]. Modelled, not verified: numpy fancy indexing, "
+            "np.isin, CPython set/dict semantics (exercised by the tie). apply_filter is covered for row-wise filters only (premise "
+            "filter_ok; the harness uses scalar multiples). Scalar (non-list) indices and tuple indices are outside the property.",
+    "technique": "Coq proof by list induction (NoDup / Permutation / StronglySorted) + vm_compute correspondence on chains of operations",
+}
